@@ -694,6 +694,9 @@ class World:
     def op_set_ref(self, op):
         v = self.dec_obj(op["v"])
         tgt = self.m if not op["s"] else self.space(op["s"])
+        if tgt is not self.m and op["n"] in tgt.cells:
+            # `space.name = v` on a cells name is a VALUE assignment, another operation
+            raise KeyError("'%s' is a cells, not a reference" % op["n"])
         mode = op.get("mode", "auto")
         if tgt is self.m:
             setattr(tgt, op["n"], v)
@@ -705,6 +708,9 @@ class World:
 
     def op_del_ref(self, op):
         tgt = self.m if not op["s"] else self.space(op["s"])
+        if tgt is not self.m and (op["n"] in tgt.cells or op["n"] in tgt.named_spaces):
+            # `del space.name` on a cells / space name deletes that object, another operation
+            raise KeyError("'%s' is not a reference" % op["n"])
         delattr(tgt, op["n"])
         return "ok"
 
@@ -743,6 +749,8 @@ class World:
 
     def op_del_cells(self, op):
         sp = self.space(op["s"])
+        if op["c"] not in sp.cells:
+            raise KeyError("'%s' is not a cells" % op["c"])
         if op.get("via") == "item":
             del sp.cells[op["c"]]
         else:
